@@ -14,7 +14,7 @@ import vlib
 from vlib import enc_str, enc_list, dec_str, dec_list
 
 THEOREMS = ["C18_refines", "C18_refines_classes", "C18_wf", "C18_join_total", "C18_laws", "C18_utf8",
-            "C18_F15_refuted", "C18_cp_self_error", "C18_partial_parents_refuted", "C18_mv_noclobber_refuted"]
+            "C18_F15_refuted", "C18_cp_self_error", "C18_mv_self_error", "C18_partial_parents_refuted", "C18_mv_noclobber_refuted"]
 
 # classes of known findings (Coq: FsTree.known_step).  id = entry id in known_findings.json.
 CLASSES = {
@@ -22,7 +22,7 @@ CLASSES = {
                "directory of that name and moves the file inside it instead of renaming"),
     3: ("F21", "writefile / appendfile / write_binary_file / touch / cp to a target written with a trailing "
                "separator fails but leaves the missing parent directories it created"),
-    4: ("F22", "mv FILE into a directory that already has a file of that name is refused (error, nothing "
+    4: ("F22", "mv FILE into a directory that already has another file of that name is refused (error, nothing "
                "changed) although mv FILE onto an existing file overwrites it"),
 }
 
